@@ -44,6 +44,11 @@ pub trait Acct {
     async fn blob(&self, call_id: u64, size: u32) -> Result<Vec<u8>, CallError>;
     /// takes a large argument
     async fn sink(&self, call_id: u64, data: Vec<u8>) -> Result<u64, CallError>;
+    /// a method with a default body that the served object overrides; echoes all of its arguments
+    async fn page(&self, call_id: u64, limit: usize, size: u32) -> Result<(u64, usize, u32), CallError> {
+        let _ = (call_id, limit, size);
+        Ok((0, 0, 0))
+    }
 }
 
 /// A newer version of the trait: one more method that the server does not know.
@@ -110,6 +115,11 @@ impl Acct for AcctObj {
         self.log.lock().unwrap().push(LogEv::Started(call_id));
         self.log.lock().unwrap().push(LogEv::Finished(call_id));
         Ok(call_id + data.len() as u64)
+    }
+    async fn page(&self, call_id: u64, limit: usize, size: u32) -> Result<(u64, usize, u32), CallError> {
+        self.log.lock().unwrap().push(LogEv::Started(call_id));
+        self.log.lock().unwrap().push(LogEv::Finished(call_id));
+        Ok((call_id, limit, size))
     }
 }
 
@@ -224,6 +234,9 @@ pub enum COp {
     CancelAdd { steps: u32, nc: bool, polls: u32 },
     CancelSlow { steps: u32, polls: u32 },
     Slow { steps: u32 },
+    /// a call of the method that has a default body in the trait (overridden by the served object), with
+    /// arguments that must come back unchanged
+    Page { limit: usize, size: u32 },
     /// a call that is started and polled a few times, then left alone (alive, unpolled) while the same task makes
     /// and completes another call through a clone of its client; afterwards the first call is awaited
     Overlap { steps: u32, polls: u32 },
@@ -353,6 +366,17 @@ async fn client_task(cid: usize, mut client: AcctClient, script: Vec<(u64, COp)>
                     Err(e) => g[idx].result = Some(Err(e.to_string())),
                 }
             }
+            COp::Page { limit, size } => {
+                let idx = push("page", 0);
+                let r = client.page(id, limit, size).await;
+                let mut g = calls.lock().unwrap();
+                g[idx].ret = Some(tick(&clock));
+                match r {
+                    Ok((e, l, s)) if l == limit && s == size && e == id => g[idx].echo = Some(e),
+                    Ok((e, l, s)) => g[idx].result = Some(Err(format!("WRONG-ARGS page({id}, {limit}, {size}) answered ({e}, {l}, {s})"))),
+                    Err(e) => g[idx].result = Some(Err(e.to_string())),
+                }
+            }
             COp::Blob { size } => {
                 let idx = push("blob", 0);
                 let r = client.blob(id, size).await;
@@ -392,6 +416,7 @@ fn gen_script(rng: &mut Rng, next_id: &mut u64, n: usize, cancel_pct: u64) -> Ve
                 x if x < cancel_pct + 30 => COp::Get,
                 x if x < cancel_pct + 70 => COp::Add { steps: rng.below(4) as u32, nc: rng.chance(30) },
                 x if x < cancel_pct + 78 => COp::Slow { steps: rng.below(3) as u32 },
+                x if x < cancel_pct + 80 => COp::Page { limit: rng.usize_below(1000), size: rng.below(1000) as u32 },
                 x if x < cancel_pct + 82 => COp::Overlap { steps: rng.below(3) as u32, polls: rng.below(6) as u32 },
                 x if x < cancel_pct + 86 => COp::Blob { size: *rng.pick(&[300u32, 3_000, 20_000]) },
                 _ => COp::Pause(rng.below(4)),
@@ -611,7 +636,13 @@ pub fn run_one(prop: &'static str, run: u64, seed: u64) -> RunOut {
                     }
                 }
             }
+            if c.kind == "page" && c.result.is_none() && c.echo == Some(c.id) && (started != 1 || finished != 1) {
+                bad.push((format!("{prop}:execution-count"), format!("call {} (page) returned the callee's result but the callee started {started} and finished {finished} times", c.id)));
+            }
             if let Some(Err(e)) = &c.result {
+                if e.contains("WRONG-ARGS") {
+                    bad.push((format!("{prop}:answer-of-another-call"), format!("call {} received an answer computed from other arguments than the ones passed: {e}", c.id)));
+                }
                 if e.contains("WRONG-BLOB") {
                     bad.push((format!("{prop}:answer-of-another-call"), format!("call {} (blob) received {e}", c.id)));
                 }
